@@ -35,7 +35,7 @@ func init() {
 			"Prepare(thash) is re-issued on a fresh Copy (Copy does not carry the current tx hash; not an observable named by the property)",
 			"address 0x03 (RIPEMD consensus exception of the journal) is not in the universe",
 		},
-		QuickRuns: 6000, QuickBudget: 55 * time.Second,
+		QuickRuns: 30000, QuickBudget: 55 * time.Second,
 		ThoroughRuns: 600000, ThoroughBudget: 14 * time.Minute,
 		Run: run,
 	})
@@ -184,7 +184,7 @@ func run(c *kernel.Ctx) {
 
 	// swarm: per-run operation weights; each class is switched off in some runs
 	w := make([]int, nOps)
-	base := []int{6, 5, 4, 8, 6, 5, 5, 4, 9, 3, 3, 3, 2, 2, 1, 2, 2, 3, 1, 2, 8, 7, 3, 1}
+	base := []int{6, 5, 4, 8, 6, 5, 5, 4, 9, 3, 3, 3, 2, 2, 1, 2, 2, 2, 1, 2, 10, 10, 3, 1}
 	for i := range w {
 		switch cfg.Pick(2, 5, 2) {
 		case 0:
